@@ -7,7 +7,7 @@ moves tokens in or out of a pool address together with its book update, as coded
 `exitOut`  = SendCoins pool → exiter, `processExitPool`, RecordTotalLiquidityDecrease. Core-only.
 -/
 import ElysModel.Data.FMap
-namespace Elys.Amm
+namespace Elys.AmmBook
 
 abbrev PD := Nat × String    -- (pool id, denom)
 
@@ -78,4 +78,4 @@ def heldEqBookB (s : St) (k : PD) : Bool := s.held.get k == s.book.get k + s.don
 def heldGeBookB (s : St) (k : PD) : Bool := s.held.get k ≥ s.book.get k
 def liqEqSumB (s : St) (d : String) : Bool := s.liq.get d == sumBook s d
 
-end Elys.Amm
+end Elys.AmmBook
